@@ -15,10 +15,10 @@ from simlib import log
 TARGET = {
     "m01": "C18", "m02": "C18", "m03": "C18", "m04": "C18", "m05": "C18", "m06": "C18", "m07": "C18", "m08": "C18",
     "m09": "C16", "m10": "C16", "m11": "C16", "m12": "C16", "m13": "C16",
-    "m14": "C18", "m15": "C18", "m16": "C18", "n01": "C18", "n02": "C18", "n03": "C16", "n04": "C18", "n05": "C18",
+    "m14": "C18", "m15": "C18", "m16": "C18", "m17": "C18", "n01": "C18", "n02": "C18", "n03": "C16", "n04": "C18", "n05": "C18",
 }
 # which operation families to concentrate on (keeps the budget small); None = all
-FOCUS = {"m01": "B", "m02": "C", "m03": "C", "m04": "C", "m05": "EF", "m06": "EF", "m07": "F", "m08": "B", "n01": "C", "n02": "EF", "m14": "G", "n04": "G", "m15": "G", "n05": "G", "m16": "A"}
+FOCUS = {"m01": "B", "m02": "C", "m03": "C", "m04": "C", "m05": "EF", "m06": "EF", "m07": "F", "m08": "B", "n01": "C", "n02": "EF", "m14": "G", "n04": "G", "m15": "G", "n05": "G", "m16": "A", "m17": "C"}
 
 
 def check_patch(ctx, patch, prop, family=None, budget=20.0, tier="quick", extra_env=None):
